@@ -113,7 +113,7 @@ package cluster
 //@ func (*RaftCluster).processRegionHeartbeat
 //@   props C06
 //@   requires c != nil && c.core != nil && cacheOK(c.core.Regions) && region != nil && allocated(region) && region.meta != nil && allocated(region.meta) && c.labelLevelStats != nil
-//@   atlock c.RWMutex havoc all core.RegionsInfo.*, all core.regionTree.*, all core.regionItem.*, all map[uint64]*core.regionItem, all map[uint64]*core.regionTree, ghost bthas : c.core != nil && cacheOK(c.core.Regions)
+//@   atlock c.RWMutex havoc all core.RegionsInfo.*, all core.regionTree.*, all core.regionItem.*, all map[uint64]*core.regionItem, all map[uint64]*core.regionTree, ghost bthas, ghost btlen : c.core != nil && cacheOK(c.core.Regions)
 //@   at PutRegion 1 assert [under-write-lock] held(c.RWMutex) && recv == c.core && arg0 == region
 //@   at DeleteRegion 1 assert [displaced-deleted] arg0 == callres("PutRegion", 1)[rangeindex + 1].meta
 //@   at SaveRegion 1 assert [saves-what-was-put] arg0 == region.meta
@@ -132,4 +132,4 @@ package cluster
 //@   at RemoveRegion 1 assert [writers-hold-the-cluster-lock] rheld(c.RWMutex) && recv == c.core
 //@   ensures [keeps-cache-ok] cacheOK(c.core.Regions)
 //@   ensures [dropped] !in(c.core.Regions.regions, id)
-//@   modifies c.core.Regions.regions[*], all core.regionTree.totalSize, ghost bthas
+//@   modifies c.core.Regions.regions[*], all core.regionTree.totalSize, ghost bthas, ghost btlen
